@@ -271,6 +271,20 @@ def run(pid, tier, seed):
                 rep.violation("tar-bundle", "tar of %s: %d entries printed (plain files: %d, journalctl: %d)%s"
                               % ([m[0] for m in members], nb, na, want_n, "" if ra.out != rb.out else " -- same bytes"),
                               {"kind": "bundle", "members": members, "rc": rb.rc})
+        # a journal in an LZ4 frame whose blocks end early (a streaming writer): every entry, once
+        common.build_harness(["mk_lz4"])
+        for k in (ka, kb):
+            for fe in ([70001] if tier == "quick" else [1000, 70001, 100000]):
+                fname = "odd%d_%s.journal.lz4" % (fe, k)
+                with open(os.path.join(bd, fname), "wb") as f:
+                    f.write(gen.lz4_bytes(open(os.path.join(bd, k + ".journal"), "rb").read(), 5, True, False, False, flush_every=fe))
+                ra = common.run_s4(["--color", "never", "--journal-output", "export", k + ".journal"], cwd=bd, timeout=300)
+                rb = common.run_s4(["--color", "never", "--journal-output", "export", fname], cwd=bd, tmpdir=tmpb, timeout=300)
+                nb = rb.out.count(b"__CURSOR=")
+                if rb.crashed or ra.out != rb.out or nb != len(prepared[k][2]):
+                    rep.violation("lz4-flush", "%s in an LZ4 frame with blocks of %d bytes: %d entries printed, journalctl has %d"
+                                  % (k, fe, nb, len(prepared[k][2])), {"kind": "oddlz4", "journal": k, "flush_every": fe, "rc": rb.rc})
+                os.remove(os.path.join(bd, fname))
         rep.coverage = {"states": r.distinct, "transitions": r.generated, "traces_validated_against_impl": len(runs),
                         "evaluations": len(runs), "distinct_nontrivial": on_entry,
                         "rule": "one evaluation = one run on one journal (entries: %s) with one rendering, window, container and "
